@@ -25,8 +25,30 @@ sibling directory "sib" at every level.  Local-filesystem meaning (os.chdir(cwd)
 working directory changes exactly like the twin, and NO decoy changes (mode, owner, size, mtime, bytes compared with a
 snapshot after every operation).  Only existing directories are used for ".." detours, so that the server's lexical
 path canonicalisation and the filesystem's physical one agree.
+
+Symbolic links.  Next to the object sit symbolic links that resolve to it: "lr" -> "f" (relative target), "la" -> absolute target,
+"lc" -> "lr" (link to a link), and "ld" -> "." (a link to the object's directory, used as "ld/f").  Every operation names the object by
+its own name or through one of them (third element of the path form; for ops by handle: the name the handle is opened with).  The local
+operations follow symbolic links - the twin lives in a directory with the same links and os.chmod / os.chown / os.utime / os.truncate
+are given the same name - so the object changes like the twin and the links themselves (lstat: mode, owner, mtime, target) stay as
+they are; they are part of the "no other object changed" snapshot.
+
+Handle sessions.  An op by handle may carry a session (bufsize, I/O before the change, I/O after it): the SFTPFile is opened in mode
+r / r+ / a / a+ / w+ with the bufsize argument of SFTPClient.open (default, 0, 1 = line buffered, > 1), a generated sequence of
+write(n bytes) / read(n) / readline() / seek(SET|CUR|END) / flush() runs on it, then the attribute change, then more I/O, then
+close().  With write buffering on, written data may still sit in the client's buffer when the change is requested (class
+"handle-io:written-data-buffered-at-change"); after reads / readline the client holds read-ahead.  Local meaning: the same sequence on
+an unbuffered local file object opened in the same mode (the OS's positions and append semantics), the change applied with os.* at
+that point of the sequence - what a local file object gives as well (file.truncate() writes buffered data out first and leaves the
+position where it was).  Reads only follow writes after a positioning call (stdio discipline: the harness inserts seek(tell())).
+Compared: right after the change, handle still open - mode, owner, times after utime, no other object changed, and size + bytes when
+nothing was written through the handle; after close() - size, bytes, mode, owner (not the times: later I/O moves them).  What read()
+returns is not asserted here.  A failure of the plain I/O itself (not the change) is "inconclusive", not a violation.
+The served files are unbuffered on the server side (sftpenv handle_buffering=0): a size change reaches the file by name, a handle that
+caches file data on the server would not see it.
 """
 import errno
+import hashlib
 import os
 import shutil
 import stat
@@ -41,13 +63,18 @@ LEVEL = "exploration"
 RULE = (
     "hypothesis-generated cases: served regular file (content = random non-zero pattern tiled to a size from "
     "{0,1,2,255..257,4095..4097,65535..65537,70000,100000, random 0..102400}) or a served directory, plus 1-4 "
-    "attribute operations by path (SFTPClient) or by open handle (SFTPFile, opened 'r' or 'r+'): truncate to "
+    "attribute operations by path (SFTPClient) or by open handle (SFTPFile, opened r / r+ / a / a+ / w+; two thirds of them inside a handle session: "
+    "bufsize {default,0,1,2..100000} and 0-3 I/O ops write/read/readline/seek/flush before (in half of the sessions buffering is on and the last one is a write) and 0-2 after the change, so that written data may "
+    "still be buffered in the client and read-ahead held when the change is requested; compared with the same sequence on an unbuffered local "
+    "file, right after the change and after close): truncate to "
     "{0,1,len-1,len,len+1,2*len,70000,random 0..200000, 2^32+k sparse}, chmod 0..0o7777 (permission bits and set-uid/set-gid/sticky, "
     "files by path and by handle, directories by path), utime ints over the whole unsigned 32-bit range 0..2^32-1 (dense at 0, 2^31 +-2, "
     "2^32-1; atime and mtime independently) or None, "
     "chown to arbitrary ids (root) or own ids; the object lives in a generated sub-directory (depth 0..2) and each op names it in a generated "
     "path form: client working directory {unset, '/', an ancestor, the object's directory} set with SFTPClient.chdir(), path {absolute, "
-    "relative to the working directory, './'-prefixed, detour 'sib/../'} - with same-named decoys at the root, in every ancestor and in a sibling "
+    "relative to the working directory, './'-prefixed, detour 'sib/../'}, last component {the object's name, a symlink to it with relative / "
+    "absolute target, a symlink to that symlink, the name behind a symlink to its directory} (os.* follow links: the object changes, the links' own lstat "
+    "must not) - with same-named decoys at the root, in every ancestor and in a sibling "
     "directory at every level; oracle = twin file under os.truncate/os.chmod/os.utime/os.chown, compared "
     "after every op (bytes, size, mode, uid, gid; atime/mtime after utime) + no decoy changed. non-trivial = a truncate of a non-empty file to a "
     "different size, or a chmod/utime/chown that changes the attribute's value; distinct by SHA-1 of the case"
@@ -66,7 +93,40 @@ _sizes = st.one_of(
 )
 _pattern = st.binary(min_size=1, max_size=24).map(lambda b: bytes((x % 255) + 1 for x in b))
 
-_via_file = st.sampled_from(["path", "handle:r", "handle:r+"])
+_via_file = st.one_of(
+    st.sampled_from(["path", "handle:r", "handle:r+"]),
+    st.sampled_from(["path", "handle:r", "handle:r+"]).map(lambda v: v),
+    st.sampled_from(["handle:r+", "handle:r+", "handle:a", "handle:a+", "handle:w+", "handle:r"]),
+)
+
+# ---- handle sessions: what else happens on the SFTPFile around the attribute change.  io = None (open, change, close) or
+# (bufsize of SFTPClient.open, I/O before the change, I/O after it); I/O ops: ("w", n bytes, data seed) | ("r", n) | ("rl",) = readline |
+# ("s", whence, value) = seek | ("fl",) = flush.  With bufsize 1 (line buffered) or > 1 written data may still sit in the client's
+# write buffer, and read data in its read-ahead buffer, when the attribute change is requested.
+_bufsize = st.sampled_from([-1, 0, 1, 2, 64, 512, 4096, 4096, 32768, 100000])
+_nbytes = st.one_of(st.integers(1, 300), st.sampled_from([1, 10, 100, 512, 4096, 5000, 40000]))
+_seekv = st.one_of(
+    st.tuples(st.just(0), st.one_of(st.sampled_from([0, 1, 10, "half", "end", "end+10"]), st.integers(0, 300))),
+    st.tuples(st.just(1), st.sampled_from([0, 0, 1, 7, 50, -1, -5])),
+    st.tuples(st.just(2), st.sampled_from([0, -1, -10, 5])),
+)
+_io_write = st.tuples(st.just("w"), _nbytes, st.integers(0, 255))
+_io_op = st.one_of(
+    _io_write,
+    _io_write.map(lambda v: v),
+    st.tuples(st.just("r"), _nbytes),
+    st.just(("rl",)),
+    st.tuples(st.just("s"), _seekv).map(lambda v: ("s", v[1][0], v[1][1])),
+    st.just(("fl",)),
+)
+_io_plan = st.tuples(_bufsize, st.lists(_io_op, min_size=0, max_size=3), st.lists(_io_op, min_size=0, max_size=2))
+# half of the sessions: write buffering on and a write as the last thing before the change (data usually still in the client's buffer)
+_io_plan_w = st.tuples(
+    st.sampled_from([1, 2, 64, 512, 4096, 32768, 100000]),
+    st.tuples(st.lists(_io_op, min_size=0, max_size=2), _io_write).map(lambda v: list(v[0]) + [v[1]]),
+    st.lists(_io_op, min_size=0, max_size=2),
+)
+_io = st.one_of(st.none(), _io_plan, _io_plan_w)
 
 _target = st.one_of(
     st.tuples(st.just("rel"), st.sampled_from([-1, 0, 1, "x2", "half"])),
@@ -105,21 +165,27 @@ else:  # an unprivileged user may only "change" to what it already is
 # relative to it.  Half of the operations keep the plain absolute path without a working directory.
 STYLES = ["abs", "rel", "dot", "detour"]
 _cwd = st.sampled_from([None, 0, 1, 2, 2, 2])
-_form = st.one_of(
+# last component(s) of the path: the object's own name "f", or a symbolic link that resolves to it - "lr" -> "f" (relative target),
+# "la" -> absolute target, "lc" -> "lr" (link to a link) - or "f" reached through a symbolic link to its directory ("ld/f", "ld" -> ".").
+# os.chmod / os.chown / os.utime / os.truncate follow symbolic links: the object changes, the link does not.
+NAMES = {"f": "own-name", "lr": "symlink-relative", "la": "symlink-absolute", "lc": "symlink-to-symlink", "ld/f": "through-dir-symlink"}
+_name = st.one_of(st.just("f"), st.just("f").map(lambda v: v), st.sampled_from(["lr", "la", "lc", "ld/f"]))
+_form2 = st.one_of(
     st.just((None, "abs")),
     st.just((None, "abs")).map(lambda v: v),
     st.tuples(_cwd, st.sampled_from(STYLES)),
     st.tuples(_cwd, st.sampled_from(["rel", "rel", "dot", "detour"])),
 )
+_form = st.tuples(_form2, _name).map(lambda v: (v[0][0], v[0][1], v[1]))
 _comp = st.sampled_from(["d", "e", "sub", "a b", "x.y", "\u00fc"])
 _dir = st.one_of(st.just([]), st.lists(_comp, min_size=1, max_size=2), st.lists(_comp, min_size=1, max_size=2).map(lambda v: v))
 
 _op_file = st.one_of(
-    st.tuples(st.just("truncate"), _via_file, _weights_target, _form),
-    st.tuples(st.just("truncate"), _via_file, _weights_target, _form),
-    st.tuples(st.just("chmod"), _via_file, _mode, _form),
-    st.tuples(st.just("utime"), _via_file, _times, _form),
-    st.tuples(st.just("chown"), _via_file, _ids, _form),
+    st.tuples(st.just("truncate"), _via_file, _weights_target, _form, _io),
+    st.tuples(st.just("truncate"), _via_file, _weights_target, _form, _io),
+    st.tuples(st.just("chmod"), _via_file, _mode, _form, _io),
+    st.tuples(st.just("utime"), _via_file, _times, _form, _io),
+    st.tuples(st.just("chown"), _via_file, _ids, _form, _io),
 )
 _op_dir = st.one_of(
     st.tuples(st.just("chmod"), st.just("path"), _mode, _form),
@@ -207,10 +273,20 @@ def _mode_bits(st_mode):
     return st_mode & 0o7777
 
 
-def _build_tree(root, dirs, kind, content):
+def _make_links(d, obj):
+    """The symbolic links of NAMES next to the object ``obj`` in directory ``d``; returns their paths."""
+    os.symlink("f", os.path.join(d, "lr"))
+    os.symlink(obj, os.path.join(d, "la"))
+    os.symlink("lr", os.path.join(d, "lc"))
+    os.symlink(".", os.path.join(d, "ld"))
+    return [os.path.join(d, x) for x in ("lr", "la", "lc", "ld")]
+
+
+def _build_tree(root, dirs, kind, content, links=True):
     """root/<dirs...>/f is the object (file with `content`, or a directory).  Same-named decoys: "f" in the root and in every
-    ancestor directory, and "sib/f" at every level (root, ancestors, the object's own directory).
-    Returns (path of the object, {decoy path: snapshot})."""
+    ancestor directory, and "sib/f" at every level (root, ancestors, the object's own directory).  Next to the object: the
+    symbolic links of NAMES that resolve to it.
+    Returns (path of the object, {decoy or link path: snapshot})."""
     levels = [root]
     for comp in dirs:
         levels.append(os.path.join(levels[-1], comp))
@@ -241,6 +317,10 @@ def _build_tree(root, dirs, kind, content):
             os.chmod(p, 0o755)
         os.utime(p, (1000000000 + i, 1000000100 + i))
         decoys[p] = _snapshot(p)
+    if links:
+        for i, p in enumerate(_make_links(levels[-1], target)):
+            os.utime(p, (1000000000 + i, 1000000200 + i), follow_symlinks=False)
+            decoys[p] = _snapshot(p)
     return target, decoys
 
 
@@ -249,7 +329,10 @@ def _snapshot(p):
         s = os.lstat(p)
     except OSError as e:
         return ("missing", e.errno)
-    if stat.S_ISDIR(s.st_mode):
+    if stat.S_ISLNK(s.st_mode):
+        body = ("symlink", os.readlink(p))
+        size = 0
+    elif stat.S_ISDIR(s.st_mode):
         body = tuple(sorted(os.listdir(p)))
         size = 0
     else:
@@ -261,12 +344,13 @@ def _snapshot(p):
 
 def _spell(dirs, form):
     """(working directory to chdir() into or None, path as given to the client) for an op's path form."""
-    cwd, style = form
+    cwd, style = form[0], form[1]
+    name = form[2] if len(form) > 2 else "f"
     depth = None if cwd is None else min(int(cwd), len(dirs))
     cwd_path = None if depth is None else "/" + "/".join(dirs[:depth])
-    rel = "/".join(list(dirs[depth or 0 :]) + ["f"])
+    rel = "/".join(list(dirs[depth or 0 :]) + [name])
     if style == "abs":
-        path = "/" + "/".join(list(dirs) + ["f"])
+        path = "/" + "/".join(list(dirs) + [name])
     elif style == "rel":
         path = rel
     elif style == "dot":
@@ -279,9 +363,141 @@ def _spell(dirs, form):
     return cwd_path, path, where
 
 
+def _wdata(seed, n):
+    """Bytes written by a handle session's write op (aperiodic; contains line feeds now and then)."""
+    return hashlib.shake_256(b"verif-c31-%d" % seed).digest(n)
+
+
+class _TwinSession:
+    """The local side of a handle session: an unbuffered local file object (the operating system's own read / write / seek /
+    append semantics, nothing cached) opened in the same mode.  Runs the generated I/O ops and records the concrete script that is then
+    replayed on the SFTPFile: ("w", data) | ("r", n) | ("rl",) | ("rl", size) | ("s", offset, whence) | ("fl",)."""
+
+    def __init__(self, path, mode, bufsize=-1):
+        self.raw = open(path, mode + "b", buffering=0)
+        # readline() fetches bufsize (default 8192) bytes per request: lines that would take more than 64 requests are read with
+        # an explicit size limit, readline(size), instead
+        self.line_limit = 64 * (bufsize if bufsize > 1 else 8192)
+        self.mode = mode
+        self.can_read = "r" in mode or "+" in mode
+        self.can_write = mode != "r"
+        self.dirty = False  # written since the last positioning call / flush
+        self.wrote = False
+        self.write_end = 0  # furthest end of a write
+
+    def run(self, ops, ctx, classes):
+        script = []
+        raw = self.raw
+        for o in ops:
+            k = o[0]
+            if k == "w":
+                if not self.can_write:
+                    ctx.count("dropped:write-on-readonly-handle")
+                    continue
+                data = _wdata(o[2], o[1])
+                view = memoryview(data)
+                while len(view):
+                    view = view[raw.write(view) :]
+                script.append(("w", data))
+                self.dirty = self.wrote = True
+                self.write_end = max(self.write_end, raw.tell())
+            elif k in ("r", "rl"):
+                if not self.can_read:
+                    ctx.count("dropped:read-on-writeonly-handle")
+                    continue
+                if self.dirty:
+                    # stdio discipline: a positioning call between writing and reading
+                    p = raw.tell()
+                    raw.seek(p)
+                    script.append(("s", p, 0))
+                    self.dirty = False
+                if k == "r":
+                    raw.read(o[1])
+                    script.append(("r", o[1]))
+                else:
+                    start = raw.tell()
+                    if os.fstat(raw.fileno()).st_size - start > (1 << 20):
+                        ctx.count("dropped:readline-in-sparse-giant")
+                        continue
+                    got = 0
+                    while True:
+                        chunk = raw.read(65536)
+                        i = chunk.find(b"\n")
+                        if i >= 0:
+                            got += i + 1
+                            break
+                        got += len(chunk)
+                        if not chunk:
+                            break
+                    if got > self.line_limit:
+                        got = self.line_limit
+                        script.append(("rl", got))
+                        classes.add("handle-io:readline(size)")
+                    else:
+                        script.append(("rl",))
+                    raw.seek(start + got)
+            elif k == "s":
+                whence, v = o[1], o[2]
+                if whence == 0 and isinstance(v, str):
+                    size = os.fstat(raw.fileno()).st_size
+                    v = {"half": size // 2, "end": size, "end+10": size + 10}[v]
+                try:
+                    raw.seek(v, whence)
+                except OSError:
+                    ctx.count("dropped:seek-before-start-of-file")
+                    continue
+                script.append(("s", v, whence))
+                classes.add("handle-io:seek-%s" % ("set", "cur", "end")[whence])
+                self.dirty = False
+            elif k == "fl":
+                script.append(("fl",))
+                self.dirty = False
+            else:
+                raise AssertionError(o)
+        return script
+
+    def close(self):
+        self.raw.close()
+
+
+def _replay_script(fh, script):
+    for o in script:
+        if o[0] == "w":
+            fh.write(o[1])
+        elif o[0] == "r":
+            fh.read(o[1])
+        elif o[0] == "rl":
+            fh.readline(*o[1:])
+        elif o[0] == "s":
+            fh.seek(o[1], o[2])
+        elif o[0] == "fl":
+            fh.flush()
+
+
+def _pending_model(bufsize, script):
+    """Bytes the SFTPFile's documented write buffering (bufsize 1: up to the last line feed is sent; > 1: everything is sent once
+    bufsize bytes have gathered; else unbuffered) still holds back after `script` - for evidence classes only."""
+    pending = 0
+    for o in script:
+        if o[0] == "w":
+            if bufsize == 1:
+                i = o[1].rfind(b"\n")
+                pending = pending + len(o[1]) if i < 0 else len(o[1]) - i - 1
+            elif bufsize > 1:
+                pending += len(o[1])
+                if pending >= bufsize:
+                    pending = 0
+        elif o[0] in ("s", "fl"):
+            pending = 0
+    return pending
+
+
 def execute(ctx, case):
     kind, pat, size, ops = case["kind"], case["pat"], case["size"], case["ops"]
-    ops = [[list(x) if isinstance(x, tuple) else x for x in o] for o in ops]
+    ops = [_jsonable(o) for o in ops]
+    for o in ops:
+        if len(o) > 4 and (o[1] == "path" or o[4] is None):
+            del o[4:]  # (a handle session belongs to ops by handle only)
     jcase = {"kind": kind, "pat": pat, "size": size, "ops": ops}
     dirs = list(case.get("dir") or [])  # (cases of the first generation of this check: object at the root, absolute paths)
     if "dir" in case:
@@ -291,34 +507,45 @@ def execute(ctx, case):
     base = os.path.join(scratch(ctx), "c%d" % _counter[0])
     root = os.path.join(base, "root")
     os.makedirs(root)
-    twin = os.path.join(base, "twin")
+    twin_dir = os.path.join(base, "twin")
+    os.mkdir(twin_dir)
+    twin_obj = os.path.join(twin_dir, "f")
     content = _content(pat, size)
     served, decoys = _build_tree(root, dirs, kind, content)
     if kind == "file":
-        with open(twin, "wb") as f:
+        with open(twin_obj, "wb") as f:
             f.write(content)
-        os.chmod(twin, 0o644)
+        os.chmod(twin_obj, 0o644)
     else:
-        os.mkdir(twin)
-        os.chmod(twin, 0o755)
+        os.mkdir(twin_obj)
+        os.chmod(twin_obj, 0o755)
+    _make_links(twin_dir, twin_obj)
 
     nontrivial = False
     classes = set()
     classes.add("depth:%d" % len(dirs))
-    env = sftpenv.SftpEnv(root)
+    # unbuffered server-side files: a size change made by path (FSETSTAT -> set_file_attr(filename)) must be seen by later reads
+    # through the handle, as with a pread()-based server
+    env = sftpenv.SftpEnv(root, handle_buffering=0)
     cur_cwd = None
     try:
         c = env.client
         for idx, o in enumerate(ops):
             op, via, arg = o[0], o[1], o[2]
             form = o[3] if len(o) > 3 else [None, "abs"]
+            io = o[4] if len(o) > 4 else None
             style = form[1]
+            name = form[2] if len(form) > 2 else "f"
+            twin = os.path.join(twin_dir, name)  # the local operation names the object the same way (own name / symlink)
             cwd_path, rpath, cwd_where = _spell(dirs, form)
             classes.add("path:" + style)
             classes.add("cwd:" + cwd_where)
+            classes.add("name:" + NAMES[name])
             if style != "abs" and cwd_where in ("ancestor", "own-dir"):
                 classes.add("relative-path-after-chdir-into-subdir")
             sfx = "" if style == "abs" else ":%s-path" % style
+            if name != "f":
+                sfx += ":" + NAMES[name]
             if cwd_path != cur_cwd:
                 try:
                     c.chdir(cwd_path)
@@ -326,12 +553,22 @@ def execute(ctx, case):
                     ctx.inconc("chdir-failed:%s" % type(e).__name__)
                     return
                 cur_cwd = cwd_path
-            before = os.stat(twin)
+            before = os.stat(twin_obj)
             old_len = before.st_size if kind == "file" else 0
+            by_handle = via != "path"
+            hmode = via.split(":")[1] if by_handle else None
             # -------- what the local filesystem does
             twin_exc = None
+            tw = script_pre = script_post = None
+            twin_at_change = None  # (stat, content or None) of the twin right after the change, handle still open
             t0 = time.time()
             try:
+                if by_handle:
+                    tw = _TwinSession(twin, hmode, io[0] if io is not None else -1)
+                    if hmode.startswith("w"):
+                        old_len = 0
+                    if io is not None:
+                        script_pre = tw.run(io[1], ctx, classes)
                 if op == "truncate":
                     n = _resolve_target(arg, old_len)
                     os.truncate(twin, n)
@@ -346,11 +583,11 @@ def execute(ctx, case):
                     if _mode_bits(before.st_mode) != arg:
                         nontrivial = True
                     tgt = "dir" if kind == "dir" else via.split(":")[0]
-                    for bit, name in ((0o4000, "setuid"), (0o2000, "setgid"), (0o1000, "sticky")):
+                    for bit, bname in ((0o4000, "setuid"), (0o2000, "setgid"), (0o1000, "sticky")):
                         if arg & bit:
-                            classes.add("chmod:%s:%s" % (name, tgt))
+                            classes.add("chmod:%s:%s" % (bname, tgt))
                         elif before.st_mode & bit:
-                            classes.add("chmod:clears-%s" % name)
+                            classes.add("chmod:clears-%s" % bname)
                     if _mode_bits(os.stat(twin).st_mode) != arg:
                         classes.add("chmod:os-drops-requested-bits")
                 elif op == "utime":
@@ -360,36 +597,19 @@ def execute(ctx, case):
                     os.chown(twin, arg[0], arg[1])
                     if (before.st_uid, before.st_gid) != tuple(arg):
                         nontrivial = True
+                if tw is not None and io is not None:
+                    twin_at_change = (os.stat(twin_obj), _read_file(twin_obj) if not tw.wrote else None)
+                    script_post = tw.run(io[2], ctx, classes)
             except OSError as e:
                 twin_exc = e
+            finally:
+                if tw is not None:
+                    tw.close()
             classes.add("%s:%s" % (op, via.split(":")[0]))
+            if by_handle:
+                classes.add("handle-mode:" + hmode)
             if kind == "dir":
                 classes.add("dir")
-            # -------- the same through SFTP
-            exc = None
-            try:
-                if via == "path":
-                    if op == "truncate":
-                        c.truncate(rpath, n)
-                    elif op == "chmod":
-                        c.chmod(rpath, arg)
-                    elif op == "utime":
-                        c.utime(rpath, None if arg is None else tuple(arg))
-                    elif op == "chown":
-                        c.chown(rpath, arg[0], arg[1])
-                else:
-                    with c.open(rpath, via.split(":")[1]) as fh:
-                        if op == "truncate":
-                            fh.truncate(n)
-                        elif op == "chmod":
-                            fh.chmod(arg)
-                        elif op == "utime":
-                            fh.utime(None if arg is None else tuple(arg))
-                        elif op == "chown":
-                            fh.chown(arg[0], arg[1])
-            except (IOError, OSError) as e:
-                exc = e
-            t1 = time.time()
             where = "op %d %s via %s arg %r, path %r with working directory %r (object is /%s)" % (
                 idx,
                 op,
@@ -402,75 +622,171 @@ def execute(ctx, case):
             if twin_exc is not None:
                 # the local filesystem refuses this too (e.g. EFBIG): nothing to compare for this op
                 ctx.count("local-os-refused:%s:%s" % (op, type(twin_exc).__name__))
-                if exc is None:
-                    ctx.inconc("sftp-accepted-what-os-refused:%s" % op)
+                return
+            hsfx = ""
+            if io is not None:
+                bufsize = io[0]
+                pending = _pending_model(bufsize, script_pre)
+                classes.add("handle-io:bufsize-%s" % ("default" if bufsize < 0 else ("0" if bufsize == 0 else ("line" if bufsize == 1 else ">1"))))
+                if pending:
+                    classes.add("handle-io:written-data-buffered-at-change")
+                    if op == "truncate":
+                        classes.add("handle-io:truncate-with-buffered-data:" + ("below-end-of-written-data" if n < tw.write_end else "at-or-above-end-of-written-data"))
+                elif any(x[0] == "w" for x in script_pre):
+                    classes.add("handle-io:written-data-sent-before-change")
+                if any(x[0] in ("r", "rl") for x in script_pre):
+                    classes.add("handle-io:read-before-change")
+                    if bufsize >= 1 or any(x[0] == "rl" for x in script_pre):
+                        classes.add("handle-io:read-ahead-possible-at-change")
+                if any(x[0] == "w" for x in script_post):
+                    classes.add("handle-io:write-after-change")
+                hsfx = ":handle-io(%s%s)" % (
+                    "unbuffered" if bufsize < 1 else ("line-buffered" if bufsize == 1 else "buffered"),
+                    ",data-pending" if pending else "",
+                )
+                where += " [handle opened %r bufsize %d; before the change: %s; after it: %s]" % (hmode, bufsize, _show_script(script_pre), _show_script(script_post))
+
+            # -------- comparison of the served object with the twin
+            def verify(t, want_content, times, content, when):
+                """False after reporting a violation.  t = stat of the twin, want_content = its content (or None)."""
+                s = os.stat(served)
+                tag = sfx + hsfx + when
+                if times:
+                    got = (int(s.st_atime), int(s.st_mtime))
+                    if arg is not None:
+                        for tv in arg:
+                            classes.add("utime:>=2^31" if tv >= 2**31 else "utime:<2^31")
+                        want = (int(t.st_atime), int(t.st_mtime))
+                        if got != want:
+                            fld = "atime+mtime-swapped" if got == want[::-1] and want[0] != want[1] else ("atime" if got[0] != want[0] else "mtime")
+                            ctx.violation("stat", "utime:%s%s" % (fld, tag), jcase, "%s: served (atime, mtime)=%r, os.utime twin=%r" % (where, got, want))
+                            return False
+                    else:
+                        lo, hi = int(t0) - 1, int(t1) + 1
+                        if not (lo <= got[0] <= hi and lo <= got[1] <= hi):
+                            ctx.violation("stat", "utime:none-not-now" + hsfx + when, jcase, "%s: served (atime, mtime)=%r, now in [%d, %d]" % (where, got, lo, hi))
+                            return False
+                for fld, a, b in (
+                    ("size", s.st_size, t.st_size) if kind == "file" else ("size", 0, 0),
+                    ("mode", s.st_mode, t.st_mode),
+                    ("uid", s.st_uid, t.st_uid),
+                    ("gid", s.st_gid, t.st_gid),
+                ):
+                    if fld == "size" and not content:
+                        continue  # (data may still be on its way: the size is compared once it has arrived)
+                    if fld == "mode" and io is not None and not IS_ROOT:
+                        a, b = a & ~0o6000, b & ~0o6000  # (an unprivileged write clears set-uid/set-gid whenever it happens)
+                    if a != b:
+                        if op == "chown" and fld in ("uid", "gid") and (s.st_uid, s.st_gid) == (t.st_gid, t.st_uid):
+                            fld = "uid+gid-swapped"
+                        if fld == "mode" and not ((a ^ b) & ~0o7000):
+                            fld = "mode-special-bits"  # only set-uid / set-gid / sticky differ
+                        if fld.startswith("mode"):
+                            a, b = oct(a), oct(b)
+                        ctx.violation("stat", "%s:%s%s" % (op, fld, tag), jcase, "%s: served st_%s=%r, twin st_%s=%r" % (where, fld, a, fld, b))
+                        return False
+                if kind == "file" and content:
+                    got, want = _read_file(served), want_content
+                    if got != want:
+                        # sparse giants are compared by (first MiB, last 8 KiB, size)
+                        unpack = lambda b: (b[0].ljust(min(1 << 20, b[2]), b"\x00"), b[2]) if isinstance(b, tuple) else (b, len(b))  # noqa: E731
+                        ghead, glen = unpack(got)
+                        whead, wlen = unpack(want)
+                        if op == "truncate":
+                            m = min(old_len, n, len(ghead), len(whead))
+                            if glen != wlen:
+                                bucket = "truncate:wrong-length"
+                            elif ghead[:m] != whead[:m]:
+                                bucket = "truncate:leading-bytes-zeroed" if ghead[:m].count(0) == m else "truncate:leading-bytes-changed"
+                            else:
+                                bucket = "truncate:extension-not-zero"
+                        else:
+                            bucket = "%s:content-changed" % op
+                        show = lambda b: (b[0][:24], b[2]) if isinstance(b, tuple) else (b[:24], len(b))  # noqa: E731
+                        ctx.violation("content", bucket + tag, jcase, "%s: old length %d; served now %r, os.%s twin %r" % (where, old_len, show(got), op, show(want)))
+                        return False
+                return True
+
+            def others_untouched():
+                for dp, snap in decoys.items():
+                    now = _snapshot(dp)
+                    if now != snap:
+                        what = "symbolic link" if snap[5][:1] == ("symlink",) else "same-named object"
+                        ctx.violation(
+                            "wrong-object",
+                            "%s:%s%s%s" % (op, via.split(":")[0], sfx, ":symlink-itself-changed" if what == "symbolic link" else ""),
+                            jcase,
+                            "%s: the %s %s changed: %r -> %r" % (where, what, dp[len(root) :], snap[:5], now[:5]),
+                        )
+                        return False
+                return True
+
+            # -------- the same through SFTP
+            exc = None
+            stage = "open"
+            t1 = None
+            try:
+                if not by_handle:
+                    stage = "change"
+                    if op == "truncate":
+                        c.truncate(rpath, n)
+                    elif op == "chmod":
+                        c.chmod(rpath, arg)
+                    elif op == "utime":
+                        c.utime(rpath, None if arg is None else tuple(arg))
+                    elif op == "chown":
+                        c.chown(rpath, arg[0], arg[1])
+                    t1 = time.time()
+                else:
+                    fh = c.open(rpath, hmode) if io is None else c.open(rpath, hmode + "b", io[0])
+                    try:
+                        if io is not None:
+                            stage = "io-before"
+                            _replay_script(fh, script_pre)
+                        stage = "change"
+                        if op == "truncate":
+                            fh.truncate(n)
+                        elif op == "chmod":
+                            fh.chmod(arg)
+                        elif op == "utime":
+                            fh.utime(None if arg is None else tuple(arg))
+                        elif op == "chown":
+                            fh.chown(arg[0], arg[1])
+                        t1 = time.time()
+                        if io is not None:
+                            # right after the change, handle still open: attributes (times after utime); size and bytes when no
+                            # data was written through the handle (else they are compared after close, when all of it has arrived)
+                            stage = "io-after"
+                            if not others_untouched():
+                                return
+                            if not verify(twin_at_change[0], twin_at_change[1], op == "utime", twin_at_change[1] is not None, ":handle-open"):
+                                return
+                            _replay_script(fh, script_post)
+                            stage = "close"
+                        fh.close()
+                    finally:
+                        try:
+                            fh.close()
+                        except Exception:
+                            pass
+            except (IOError, OSError) as e:
+                exc = e
+            if t1 is None:
+                t1 = time.time()
+            if exc is not None and stage != "change" and io is not None:
+                # plain I/O on the handle failed: not this property's business
+                ctx.inconc("handle-io-failed:%s:%s" % (stage, type(exc).__name__))
                 return
             if exc is not None:
-                ctx.violation("raises", "%s:%s:%s%s" % (op, via.split(":")[0], type(exc).__name__, sfx), jcase, "%s: client raised %r, os.%s succeeded" % (where, exc, op))
+                ctx.violation("raises", "%s:%s:%s%s" % (op, via.split(":")[0], type(exc).__name__, sfx + hsfx), jcase, "%s: client raised %r, os.%s succeeded" % (where, exc, op))
                 return
             # -------- no other object may have changed
-            for dp, snap in decoys.items():
-                now = _snapshot(dp)
-                if now != snap:
-                    ctx.violation(
-                        "wrong-object",
-                        "%s:%s%s" % (op, via.split(":")[0], sfx),
-                        jcase,
-                        "%s: the same-named object %s changed: %r -> %r" % (where, dp[len(root) :], snap[:5], now[:5]),
-                    )
-                    return
-            # -------- compare
-            s, t = os.stat(served), os.stat(twin)
-            if op == "utime":
-                got = (int(s.st_atime), int(s.st_mtime))
-                if arg is not None:
-                    for tv in arg:
-                        classes.add("utime:>=2^31" if tv >= 2**31 else "utime:<2^31")
-                    want = (int(t.st_atime), int(t.st_mtime))
-                    if got != want:
-                        fld = "atime+mtime-swapped" if got == want[::-1] and want[0] != want[1] else ("atime" if got[0] != want[0] else "mtime")
-                        ctx.violation("stat", "utime:%s%s" % (fld, sfx), jcase, "%s: served (atime, mtime)=%r, os.utime twin=%r" % (where, got, want))
-                        return
-                else:
-                    lo, hi = int(t0) - 1, int(t1) + 1
-                    if not (lo <= got[0] <= hi and lo <= got[1] <= hi):
-                        ctx.violation("stat", "utime:none-not-now", jcase, "%s: served (atime, mtime)=%r, now in [%d, %d]" % (where, got, lo, hi))
-                        return
-            for fld, a, b in (
-                ("size", s.st_size, t.st_size) if kind == "file" else ("size", 0, 0),
-                ("mode", s.st_mode, t.st_mode),
-                ("uid", s.st_uid, t.st_uid),
-                ("gid", s.st_gid, t.st_gid),
-            ):
-                if a != b:
-                    if op == "chown" and fld in ("uid", "gid") and (s.st_uid, s.st_gid) == (t.st_gid, t.st_uid):
-                        fld = "uid+gid-swapped"
-                    if fld == "mode" and not ((a ^ b) & ~0o7000):
-                        fld = "mode-special-bits"  # only set-uid / set-gid / sticky differ
-                    if fld.startswith("mode"):
-                        a, b = oct(a), oct(b)
-                    ctx.violation("stat", "%s:%s%s" % (op, fld, sfx), jcase, "%s: served st_%s=%r, twin st_%s=%r" % (where, fld, a, fld, b))
-                    return
-            if kind == "file":
-                got, want = _read_file(served), _read_file(twin)
-                if got != want:
-                    # sparse giants are compared by (first MiB, last 8 KiB, size)
-                    unpack = lambda b: (b[0].ljust(min(1 << 20, b[2]), b"\x00"), b[2]) if isinstance(b, tuple) else (b, len(b))  # noqa: E731
-                    ghead, glen = unpack(got)
-                    whead, wlen = unpack(want)
-                    if op == "truncate":
-                        m = min(old_len, n, len(ghead), len(whead))
-                        if glen != wlen:
-                            bucket = "truncate:wrong-length"
-                        elif ghead[:m] != whead[:m]:
-                            bucket = "truncate:leading-bytes-zeroed" if ghead[:m].count(0) == m else "truncate:leading-bytes-changed"
-                        else:
-                            bucket = "truncate:extension-not-zero"
-                    else:
-                        bucket = "%s:content-changed" % op
-                    show = lambda b: (b[0][:24], b[2]) if isinstance(b, tuple) else (b[:24], len(b))
-                    ctx.violation("content", bucket + sfx, jcase, "%s: old length %d; served now %r, os.%s twin %r" % (where, old_len, show(got), op, show(want)))
-                    return
+            if not others_untouched():
+                return
+            # -------- compare (after a handle session: everything but the times, which later I/O legitimately moves)
+            t = os.stat(twin_obj)
+            if not verify(t, _read_file(twin_obj) if kind == "file" else None, op == "utime" and io is None, True, ":after-close" if io is not None else ""):
+                return
     finally:
         env.close()
         alive = env.threads_alive()
@@ -478,6 +794,14 @@ def execute(ctx, case):
         ctx.case(jcase, nontrivial, sorted(classes))
         if alive:
             raise RuntimeError("sftpenv server thread did not stop")
+
+
+def _show_script(script):
+    return ", ".join("write(%d bytes)" % len(o[1]) if o[0] == "w" else ("%s%r" % (o[0], tuple(o[1:]))) for o in script or []) or "-"
+
+
+def _jsonable(x):
+    return [_jsonable(y) for y in x] if isinstance(x, (tuple, list)) else x
 
 
 def _explore_in_slices(ctx, strategy, body, total, shrink, slice_size=400):
@@ -495,7 +819,7 @@ def run(ctx):
     ctx.set_budget(60, 800)
     if not IS_ROOT:
         ctx.assume("not running as root: chown only to the current uid/gid")
-    _explore_in_slices(ctx, case_st, lambda c: execute(ctx, c), ctx.scale(1500, 40000), shrink=True, slice_size=1500)
+    _explore_in_slices(ctx, case_st, lambda c: execute(ctx, c), ctx.scale(1200, 36000), shrink=True, slice_size=1200)
 
 
 def replay(ctx, case):
